@@ -965,7 +965,7 @@ def replace_zero(x, val):
 
 
 def array_from_args_gradmaker(argnum, ans, args, kwargs):
-    return lambda g: g[argnum - 2]
+    return lambda g: match_complex(args[argnum], g[argnum - 2])
 
 
 defvjp_argnum(anp.array_from_args, array_from_args_gradmaker)
